@@ -141,6 +141,7 @@ def main():
                         verdict, message = 'refuted', m.message
                         args = parse_call_args(m.message, flat)
                         res['state'] = st.name
+                        res['trace'] = (getattr(m, 'traceback', '') or '')[-1800:]
                         break
                     elif st == MessageType.PRE_UNSAT:
                         verdict, message = 'pre_unsat', m.message
